@@ -10,7 +10,7 @@ use crate::tape::Tape;
 use crate::with_spec;
 
 pub const RULE: &str = "(specification, valid document with known-size masters only, junk run of 1-12 bytes drawn from the byte values that are not the first byte of any id of the specification, 0x00 included) \
-× one buffer capacity from {default, 16, 17, 24, 32, 64, len} and one source (slice, or reads of 1-47 bytes) × EVERY position between two consecutive tags as insertion point (exhaustive per document: after a leaf, after a master header, after the last child of a master when a sibling follows) + one junk run at a random non-boundary position. \
+× one buffer capacity from {default, 16, 17, 24, 32, 64, len}, one source (slice, or reads of 1-47 bytes) and one tolerance subset without InvalidTagIds (strict in half of the cases) × EVERY position between two consecutive tags as insertion point (exhaustive per document: after a leaf, after a master header, after the last child of a master when a sibling follows) + one junk run at a random non-boundary position. \
 From the reference encoder's layout the harness decides whether the precondition holds (the tag following the junk still fits every enclosing known-size master after the shift). Precondition true: items before the junk equal the undamaged parse (same offsets), \
 exactly one error, try_recover() is Ok, the remaining items equal the rest of the undamaged parse (non-End offsets shifted by the junk length, Ends of masters opened before the junk unchanged), then None. \
 Every case: try_recover never panics, fails only with UnexpectedEOF / ReadError, never moves backwards. One evaluation per (document, insertion point). Non-trivial: precondition true with the following tag at depth >= 2; distinct by (document, position, junk).";
